@@ -74,6 +74,13 @@ static int stub_req_control(struct upipe *upipe, int command, va_list args)
                 struct uref *u_ = vs_make_uref(false, 0, 5);
                 if (u_ != NULL) upipe_input(g_pipe, u_, NULL);
             }
+            if (REENTER == 3 && k == MAXR && g_reentered == 0) {
+                /* the output answers the new request at once and the requester's callback re-issues the same request
+                 * (unregister + register), as the upipe_helper_* require_* functions do from their provide callbacks */
+                g_reentered = 1;
+                upipe_idem_unregister_output_request(g_pipe, &g_rnew);
+                upipe_idem_register_output_request(g_pipe, &g_rnew);
+            }
             if (REENTER == 1 && g_reenter && k == 0 && NREQ >= 2 && g_reentered == 0) {
                 g_reentered = 1;
                 upipe_idem_unregister_output_request(g_pipe, &g_r1);
@@ -154,10 +161,15 @@ void h_req_register(void)
     BUILD();
     int ret = upipe_idem_register_output_request(upipe, &g_rnew);
     VPOST(spec_list_is(upipe, NREQ, true, -1));
-    VPOST(WITH_A ? (g_reg[0][MAXR] == 1 && g_rnew.registered && g_bad_order == 0)
+    VPOST(WITH_A ? ((REENTER == 3 || g_reg[0][MAXR] == 1) && g_rnew.registered && g_bad_order == 0)
                  : (!g_rnew.registered && g_provide_events == 1 && g_reg[0][MAXR] == 0));
     /* "forwarded down the chain until a pipe or a probe provides it": an output that does not handle the request leaves it
      * to the pipe's probes (one provide_request event); one that handles it is the end of the road */
+    if (REENTER == 3 && WITH_A) {
+        /* re-issued from inside the answer: still on the list exactly once, and the output's last word about it is one REGISTER
+         * that has not been withdrawn (no stale second registration) */
+        VPOST(g_reentered == 1 && g_reg[0][MAXR] == g_unreg[0][MAXR] + 1 && g_last[0][MAXR] == 1 && g_bad_order == 0 && g_rnew.registered);
+    } else
     VPOST(!WITH_A || g_provide_events == (g_last_reg_ret == UBASE_ERR_UNHANDLED ? 1 : 0));
     VIN(uint8_t, gk); VASSUME(gk < NREQ || NREQ == 0);
     VPOST(NREQ == 0 || (g_reg[0][gk] == 0 && g_unreg[0][gk] == 0 && RQ(gk)->registered == (WITH_A != 0)));   /* the others untouched */
